@@ -491,6 +491,43 @@ def interleaved_repeats(ck, tier):
         cleanup()
 
 
+def array_arguments(ck, tier):
+    """small arguments given as NumPy arrays (an origin computed with NumPy, counted from the far edge or not; ranges; angles) are the
+    caller's as much as the image is: unchanged after the call, and a repeated call returns the same"""
+    import abel
+    from abel.tools import polar, vmi, center
+    rng = np.random.default_rng(seed() + 1818)
+    im = rng.random((23, 27))
+    cases = []
+    for o in (np.array([-6.0, -8.0]), np.array([7.0, 9.0]), np.array([-6, -8]), np.array([7, 9])):
+        cases += [("reproject_image_into_polar", lambda o=o: polar.reproject_image_into_polar(im, origin=o)[0], o),
+                  ("angular_integration_3D", lambda o=o: vmi.angular_integration_3D(im, origin=o)[1], o),
+                  ("average_radial_intensity_2D", lambda o=o: vmi.average_radial_intensity_2D(im, origin=o)[1], o),
+                  ("radial_intensity", lambda o=o: vmi.radial_intensity("int3D", im, origin=o)[1], o),
+                  ("Distributions", lambda o=o: vmi.Distributions(origin=o if o.dtype.kind == "i" else tuple(int(v) for v in o), rmax="MIN", order=2).image(im).cos(), o),
+                  ("set_center", lambda o=o: center.set_center(im, o), o),
+                  ("center_image", lambda o=o: center.center_image(im, o), o),
+                  ("rbasex_transform", lambda o=o: abel.rbasex.rbasex_transform(im, origin=o if o.dtype.kind == "i" else tuple(int(v) for v in o))[1].cos(), o)]
+    for label, f, arg in cases:
+        keep = arg.copy()
+        ck.count(("S.array-args", label, arg.dtype.kind, bool((arg < 0).any())), suite="S.runtime")
+        rep = dict(function=label, origin=keep.tolist(), dtype=str(arg.dtype))
+        try:
+            a = np.asarray(quiet(f), float)
+            changed = not np.array_equal(arg, keep)
+            b = np.asarray(quiet(f), float)
+        except Exception as e:
+            if not np.array_equal(arg, keep):
+                ck.violation(dict(site=label, clause="array-argument-changed"), rep, f"{label}: origin array {keep.tolist()} is {arg.tolist()} after a call that raised {type(e).__name__}")
+            arg[...] = keep
+            continue                              # (a form of origin the function refuses loudly is not this property's matter)
+        if changed or not np.array_equal(arg, keep):
+            ck.violation(dict(site=label, clause="array-argument-changed"), rep, f"{label}: the caller's origin array {keep.tolist()} is {arg.tolist()} after the call")
+        elif a.shape != b.shape or not np.array_equal(a, b, equal_nan=True):
+            ck.violation(dict(site=label, clause="array-argument-repeat"), rep, f"{label}: a second identical call with origin array {keep.tolist()} returned something else")
+        arg[...] = keep
+
+
 def disk_sessions(ck, tier):
     """calling again with the same arguments returns the same bits — also when other methods' calls come in between and the basis
     directory on disk is in use: each call of an interleaved session is compared with its first occurrence"""
@@ -570,6 +607,7 @@ def run(tier):
     disk_sessions(ck, tier)
     mutated_containers(ck, tier)
     interleaved_repeats(ck, tier)
+    array_arguments(ck, tier)
     return ck.finish()
 
 
